@@ -908,11 +908,21 @@ impl StoryState {
     pub fn pop_evaluation_stack_multiple(
         &mut self,
         number_of_objects: usize,
-    ) -> Vec<Rc<dyn RTObject>> {
-        let start = self.evaluation_stack.len() - number_of_objects;
+    ) -> Result<Vec<Rc<dyn RTObject>>, StoryError> {
+        // An operand can be missing after a reported error (e.g. a variable
+        // that was not found pushed nothing).
+        let start = self
+            .evaluation_stack
+            .len()
+            .checked_sub(number_of_objects)
+            .ok_or_else(|| {
+                StoryError::InvalidStoryState(
+                    "Evaluation stack has fewer values than the operation needs: an operand is missing.".to_owned(),
+                )
+            })?;
         let obj: Vec<Rc<dyn RTObject>> = self.evaluation_stack.drain(start..).collect();
 
-        obj
+        Ok(obj)
     }
 
     pub fn set_diverted_pointer(&mut self, p: Pointer) {
